@@ -20,7 +20,7 @@ def plan(tier):
             "two_consecutive_superblocks_without_ones", "two_consecutive_superblocks_without_zeros",
             "wm_clone_queried", "wm_serde_roundtrip_queried", "rs_clone_from_into_used_object",
             "rs_original_and_copy_both_continue", "wm_clone_from_into_used_object",
-            "wm_original_and_copy_both_continue", "largest_legal_superblock_factor", "superblock_factor_beyond_2p32",] + ([] if q else ["more_than_2p32_ones_in_a_superblock"]) + [
+            "wm_original_and_copy_both_continue", "largest_legal_superblock_factor", "superblock_factor_beyond_2p32", "more_than_2p32_ones_in_a_superblock",
             "more_than_65535_ones_in_a_superblock", "more_than_65535_zeros_in_a_superblock",
             "more_than_128_superblocks_sparse", "more_than_128_superblocks", "big_single_superblock",
             "wm_exhaustive_small", "wm_len_at_superblock_boundary", "wm_padded_levels", "wm_single_symbol_text"],
